@@ -202,9 +202,16 @@ fn two_ops<R: Reader<Offset = usize>>(section: R, buf: &[u8; N], ops: (u8, u8), 
     let g1 = apply(&mut r, &section, ops.0, args.0, bytes.0, &mut e1);
     let m1 = model(buf, &mut pos, &mut end, ops.0, args.0, bytes.0, &mut e2);
     assert!(g1 == m1, "first operation differs from the cursor model");
+    let mid = r.clone();
+    let mid_pos = pos;
+    let was_emptied = e1;
     let g2 = apply(&mut r, &section, ops.1, args.1, bytes.1, &mut e1);
     let m2 = model(buf, &mut pos, &mut end, ops.1, args.1, bytes.1, &mut e2);
     assert!(g2 == m2, "second operation differs from the cursor model");
+    // offsets relative to a base that is itself inside the section
+    if !e1 && !was_emptied {
+        assert!(r.offset_from(&mid) == pos - mid_pos, "offset_from a base inside the section");
+    }
     if twin {
         assert!(g2.len == 99, "twin");
     }
@@ -305,7 +312,7 @@ fn c10_q_range_to_past_view_panics() {
     kani::assume(y > 2 && y <= N);
     let v = r.range_to(..y);
     // reaching this point means the view grew beyond its bounds
-    assert!(v.len() <= 2);
+    assert!(v.len() > 99, "MUST-NOT-REACH: range_to handed out a view beyond the current one");
 }
 
 // ---- UnitHeader::range*: sub-views of the entries at the requested unit offsets ----
